@@ -8,6 +8,7 @@ from props.C02 import tx_cfg, coop_rounds, fc_frame
 
 class C17(PropBase):
     id = 'C17'
+    address_change = 0.15
     rx_only_gaps = 0.1
     partial_passes = 0.25
     rx_only_passes = 0.4
